@@ -56,6 +56,7 @@ var flowClients = map[string]struct{ secret, redirect string }{
 	"web2":   {"web2-secret", "https://web2.example.com/cb"},
 	"spa":    {"", "https://spa.example.com/cb"},
 	"native": {"", "http://127.0.0.1/cb"},
+	"pkjwt":  {"", "https://pk.example.com/cb"},
 }
 
 func (g *gen) flowOpts(client string) flowOpts {
@@ -103,6 +104,8 @@ func (o flowOpts) redeemForm(code, sendVerifier string) (form []pair, basic []st
 		basic = []string{"web", "web-secret"}
 	case "web2":
 		form = append(form, pair{k: "client_id", v: "web2"}, pair{k: "client_secret", v: "web2-secret"})
+	case "pkjwt":
+		form = append(form, pair{k: "client_assertion", v: pkAssertion()}, pair{k: "client_assertion_type", v: caJWT})
 	default:
 		form = append(form, pair{k: "client_id", v: o.client})
 	}
@@ -361,19 +364,17 @@ var tokenParams = map[string]bool{"code": true, "refresh_token": true, "assertio
 
 func routeCases(w *emit.Writer, g *gen, n int) {
 	r := g.r
-	st := opfix.NewStd()
-	f, err := opfix.New(st, opfix.Options{})
-	if err != nil {
-		panic(err)
-	}
-	var lives [2]live
+	// three providers: static issuer; issuer taken from forwarding headers; private_key_jwt switched off
+	fx := []*fixt{newFixt("static"), newFixt("forwarded"), newFixt("nopkjwt")}
 	grants := []string{gtCode, gtRefresh, gtCC, gtBearer, gtTE, gtDevice, "", "password", "implicit", "GARBAGE\x00"}
 	for i := 0; i < n; i++ {
 		rt := opfix.Router(i % 2)
+		x := fx[[]int{0, 1, 0, 2}[i/16%4]]
+		f, st := x.f, x.st
 		if i%16 < 2 {
-			lives[rt] = g.newLive(f, st, rt)
+			x.lives[rt] = g.newLive(f, st, rt)
 		}
-		l := lives[rt]
+		l := x.lives[rt]
 		{ // a fresh, not yet redeemed code of a flow with its own optional parts
 			fo := g.flowOpts("")
 			fo.notLoggedIn = r.Chance(1, 10)
@@ -395,6 +396,11 @@ func routeCases(w *emit.Writer, g *gen, n int) {
 		useRaw := false
 		headers := map[string]string{}
 
+		if x.name == "forwarded" && r.Chance(2, 3) { // the provider that derives its issuer from forwarding headers mostly gets one
+			name := drv.Pick(r, []string{"Forwarded", "Forwarded", "X-Verif-Forwarded"})
+			headers[name] = drv.Pick(r, []string{"host=op.example.com", "host=op.example.com", "for=10.0.0.1;host=op.example.com;proto=https", "host=\"op.example.com\"",
+				"host=other.example.com", "host=op.example.com:8443", g.hostileHeader(name, nil), g.hostileHeader(name, nil)})
+		}
 		switch {
 		case i < 4: // F06: token exchange whose subject is a live opaque access token
 			b = bs[8]
@@ -410,7 +416,13 @@ func routeCases(w *emit.Writer, g *gen, n int) {
 				nm = 0 // the valid request itself
 			}
 			for k := 0; k < nm; k++ {
-				switch r.IntN(29) {
+				switch r.IntN(34) {
+				case 29, 30, 31, 32, 33: // hostile value in a header the library reads
+					name := drv.Pick(r, fuzzHeaders)
+					headers[name] = g.hostileHeader(name, []string{l.at, l.atJWT, l.rt, l.idToken, "abc"})
+					if name == "Authorization" {
+						basic, bearer = nil, ""
+					}
 				case 0: // drop a parameter
 					if len(form) > 0 {
 						at := r.IntN(len(form))
@@ -421,9 +433,9 @@ func routeCases(w *emit.Writer, g *gen, n int) {
 						p := drv.Pick(r, form)
 						form = append(form, pair{k: p.k, v: drv.Pick(r, []string{"", "other", p.v})})
 					}
-				case 2: // oversized value
+				case 2: // oversized value, also just around fixed-buffer sizes
 					if len(form) > 0 {
-						form[r.IntN(len(form))].v = strings.Repeat("x", 70000)
+						form[r.IntN(len(form))].v = strings.Repeat("x", drv.Pick(r, []int{70000, 70000, 255, 256, 257, 1023, 1024, 1025, 4095, 4096, 4097, 8193, 65536}))
 					}
 				case 3, 4, 5: // hostile token in a token-valued parameter
 					var idx []int
@@ -447,9 +459,23 @@ func routeCases(w *emit.Writer, g *gen, n int) {
 					}
 				case 6: // malformed escape in a value
 					form = append(form, pair{k: drv.Pick(r, []string{"junk", "scope", "client_id", "code"}), v: drv.Pick(r, []string{"%zz", "%", "a%2", "%u1234"}), raw: true})
-				case 7: // invalid UTF-8 / control bytes
+				case 7: // invalid UTF-8 / control bytes / runes whose case mapping changes the length / keyword-like literals, alone or around the value
 					if len(form) > 0 {
-						form[r.IntN(len(form))].v = drv.Pick(r, []string{"\xff\xfe", "a\x00b", "\xc3(", "\r\nX-Injected: 1"})
+						k := r.IntN(len(form))
+						switch r.IntN(6) {
+						case 0:
+							form[k].v = drv.Pick(r, []string{"\xff\xfe", "a\x00b", "\xc3(", "\r\nX-Injected: 1"})
+						case 1:
+							form[k].v = drv.Pick(r, []string{"null", "NULL", "nil", "undefined", "true", "false", "0", "-0", "[]", "{}", "\"\"", "NaN", " "})
+						case 2:
+							form[k].v = g.junk(3) + form[k].v
+						case 3:
+							form[k].v = form[k].v + g.junk(3)
+						case 4:
+							form[k].v = g.junk(4)
+						default: // another spelling of the value itself
+							form[k].v = drv.Pick(r, []string{strings.ToUpper(form[k].v), strings.ToLower(form[k].v), " " + form[k].v, form[k].v + " ", form[k].v + "/", strings.ReplaceAll(form[k].v, "k", "K"), strings.ReplaceAll(form[k].v, "s", "ſ")})
+						}
 					}
 				case 8: // every grant_type
 					found := false
@@ -581,6 +607,14 @@ func routeCases(w *emit.Writer, g *gen, n int) {
 		if authz != "" {
 			req.Header.Set("Authorization", authz)
 		}
+		hdrDigest := x.name
+		for _, k := range fuzzHeaders { // fixed order
+			if v, ok := headers[k]; ok {
+				setHeader(req, k, v)
+				hdrDigest += "|" + k + ":" + v
+				delete(headers, k)
+			}
+		}
 		for k, v := range headers {
 			req.Header.Set(k, v)
 		}
@@ -598,7 +632,7 @@ func routeCases(w *emit.Writer, g *gen, n int) {
 			flt.kind = drv.Pick(r, []string{"error", "deadline"})
 		}
 		res := do(f.Handlers[rt], req, st, flt)
-		tags = append(tags, "kind=route", "router="+rt.String(), "route="+b.name, "method="+method, flt.tag())
+		tags = append(tags, "kind=route", "router="+rt.String(), "route="+b.name, "method="+method, flt.tag(), "provider="+x.name, fmt.Sprintf("hdrfuzz=%v", hdrDigest != x.name))
 		if ftag != "" {
 			tags = append(tags, ftag)
 		}
@@ -607,13 +641,13 @@ func routeCases(w *emit.Writer, g *gen, n int) {
 			entry = "ViaLegacy"
 		}
 		w.Add(emit.Case{
-			Input:    emit.Ctor("IRoute", entry, emit.Nat(b.class), emit.Str(digest(method, target, body, ctype, req.Header.Get("Authorization")))),
+			Input:    emit.Ctor("IRoute", entry, emit.Nat(b.class), emit.Str(digest(method, target, body, ctype, req.Header.Get("Authorization"), hdrDigest))),
 			Observed: emit.Ctor("ORoute", res.class()),
 			Tags:     tags,
 			Human: map[string]any{"method": method, "target": short([]byte(target)), "body": short([]byte(body)), "content_type": ctype,
 				"authorization": short([]byte(req.Header.Get("Authorization"))), "status": res.status, "first_status": res.first, "writes": res.writes,
 				"panic": res.panic, "storage_calls_after_first_write": res.end - res.atFirst, "response": short([]byte(res.body)),
-				"fault": fmt.Sprintf("%d/%s/%s hit=%v", flt.at, flt.method, flt.kind, res.hit)},
+				"fault": fmt.Sprintf("%d/%s/%s hit=%v", flt.at, flt.method, flt.kind, res.hit), "provider": x.name, "headers": hdrDigest},
 		})
 	}
 }
